@@ -12,7 +12,7 @@ prop(
     level_text="Every generated policy is run through the real ExponentialBackoff (via the cfg hook) and compared "
                "step by step with a saturating u128 reference; a panic anywhere is a violation. Held means: no "
                "mismatch and no panic on the explored policies for 200 steps each.",
-    level_note="Trusted: the 12-line reference in harness/src/p_backoff.rs. Not reached: the retry counter after 2^32 "
+    level_note="Trusted: the 12-line reference in harness/crates/misc/src/p_backoff.rs. Not reached: the retry counter after 2^32 "
                "steps of an unlimited policy (a u32 that would overflow-panic only in builds with overflow checks).",
     shards={"quick": 2, "thorough": 8},
 )
